@@ -47,7 +47,8 @@ func mergeBuilderInto(fromBuilder ast.Builder, intoBuilder ast.Builder, underPat
 			continue
 		}
 
-		newAssignment := assignment
+		// the merged builder gets its own copies: the source builder stays in the list
+		newAssignment := assignment.DeepCopy()
 		newAssignment.Path = underPath.Append(assignment.Path)
 		newBuilder.Constructor.Assignments = append(newBuilder.Constructor.Assignments, newAssignment)
 	}
@@ -58,7 +59,7 @@ func mergeBuilderInto(fromBuilder ast.Builder, intoBuilder ast.Builder, underPat
 			continue
 		}
 
-		newOpt := opt
+		newOpt := opt.DeepCopy()
 		newOpt.Assignments = nil
 
 		if as, found := renameOptions[newOpt.Name]; found {
@@ -66,7 +67,7 @@ func mergeBuilderInto(fromBuilder ast.Builder, intoBuilder ast.Builder, underPat
 		}
 
 		for _, assignment := range opt.Assignments {
-			newAssignment := assignment
+			newAssignment := assignment.DeepCopy()
 			newAssignment.Path = underPath.Append(assignment.Path)
 
 			newOpt.Assignments = append(newOpt.Assignments, newAssignment)
@@ -151,7 +152,7 @@ func composeBuilderForType(schemas ast.Schemas, builders ast.Builders, config Co
 			continue
 		}
 
-		newBuilder.Options = append(newBuilder.Options, panelOpt)
+		newBuilder.Options = append(newBuilder.Options, panelOpt.DeepCopy())
 	}
 
 	composedBuilders := make([]ast.Builder, 0, len(composableBuilders))
